@@ -329,7 +329,7 @@ ChunkOutcome driveChunked(const std::string &in, const hx::Cuts &cuts, const boo
                 bool needSpace = false;
                 try {
                     done = parser.parse(inBuf);
-                    needSpace = !done && !inBuf.isEmpty() && parser.needsMoreSpace();
+                    needSpace = !done && parser.needsMoreSpace() && !parser.remaining().isEmpty();
                 } catch (...) {
                     decodedData.clean();
                     throw;
@@ -444,10 +444,12 @@ int runC51(const std::vector<std::string> &)
         std::string acc;
         size_t accStart = 0, k = 0;
         bool over = false;
+        long long chunkTime = squid_curtime; // squid_curtime in force before the first op of the chunk
         auto flush = [&](size_t next) {
-            if (!acc.empty()) vsim::hist("RES\t%s\t%zu\t%lld\t%s", id.c_str(), accStart, (long long)squid_curtime, acc.c_str());
+            if (!acc.empty()) vsim::hist("RES\t%s\t%zu\t%lld\t%s", id.c_str(), accStart, chunkTime, acc.c_str());
             acc.clear();
             accStart = next;
+            chunkTime = squid_curtime;
         };
         for (size_t i = 3; i < f.size(); ++i, ++k) {
             const auto op = hx::split(f[i], ',');
